@@ -238,6 +238,10 @@ impl Prop for C05 {
                 replicas[0].role = format!("parking-{}", replicas[0].role);
             }
         }
+        if rng.pct(25) {
+            let i = replicas.len() - 1;
+            replicas[i].role = format!("revopts-{}", replicas[i].role);
+        }
         for i in 1..replicas.len() {
             if !replicas[i].role.contains("lazy") && !replicas[i].role.contains("restarting") && !replicas[i].role.contains("parking") && rng.pct(30) {
                 // slow / re-entrant / probing variants of a twin (migrating, logging and env are drawn above)
